@@ -23,12 +23,14 @@ META = {
     "level": "exploration",
     "technique": "independent form encoder as oracle (encode -> real parser -> compare), byte mutations for the "
                  "clean-failure half, limit values at n-1/n/n+1",
-    "level_text": "Generated forms (0-6 fields/files; names, filenames and contents over an adversarial alphabet) are "
+    "level_text": "Generated forms (0-6 fields/files; names, filenames and contents over an adversarial alphabet; uploads with and "
+                  "without a declared Content-Type mixed in every order, plain fields with a Content-Type of their own) are "
                   "encoded by an independent urlencoded / multipart writer whose boundary is verified absent from all "
                   "content; the real parse_body_arguments must return exactly those fields and files. Single-byte "
                   "mutations, truncations, arbitrary bodies and content-type variants must succeed or raise "
                   "HTTPInputError. max_parts and max_part_header_size are probed one below, at and one above the "
-                  "form's own size.",
+                  "form's own size. For an upload without a declared type the reported content_type must equal what the "
+                  "parser reports for the same part alone (no dependence on the other parts).",
     "level_note": "Trusts the 200-line encoder (RFC 7578/2046 writer, RFC 2045 quoted-string, RFC 2231/5987 ext-value, "
                   "RFC 2231 section 3 continuations and section 4.1 continuations with charset information, sections "
                   "cut at character boundaries, numbered 0.. contiguously, regular sections of a charset-carrying "
@@ -51,12 +53,14 @@ FLOORS = {"quick": 8000, "thorough": 800000}
 ASSUMPTIONS = [
     "the reference encoder emits only valid encodings (its boundary-absence and count assertions hold)",
     "urlencoded field names are compared as bytes: Tornado documents that keys are latin-1 decoded str",
-    "a multipart file part without Content-Type has an unspecified content_type (not compared)",
+    "which content_type a multipart file part without Content-Type gets is unspecified; only that it is the same as for "
+    "that part parsed alone (does not depend on the other parts of the form) is demanded",
     "'header size' of a part may be read with or without the terminating CRLFs: sizes in that 4-byte window are not gated",
 ]
 REQUIRED_COUNTERS = ["oracle_evals", "lossless_url", "lossless_mp", "safety_evals", "limit_parts_evals",
                      "limit_header_evals", "mp_form_quoted", "mp_form_ext", "mp_form_token", "mp_form_cont",
-                     "mp_form_contx", "mp_fnform_cont", "mp_fnform_contx", "mp_files"]
+                     "mp_form_contx", "mp_fnform_cont", "mp_fnform_contx", "mp_files", "untyped_upload_after_typed_part",
+                     "untyped_upload_before_typed_part", "mp_field_with_content_type"]
 
 # ---------------------------------------------------------------------------
 # generators
@@ -95,11 +99,16 @@ def gen_form(rng, maxparts=6, files=True):
     n = rng.choice([0, 1, 1, 2, 2, 3, 4, 6]) if maxparts >= 6 else rng.randint(1, maxparts)
     names = [gen_name(rng) for _ in range(max(1, n // 2 + 1))]
     parts = []
+    # some forms are mostly uploads, half of them without a declared type (typed and untyped uploads in every order)
+    heavy = files and n >= 2 and rng.random() < 0.15
     for _ in range(n):
         name = rng.choice(names) if rng.random() < 0.6 else gen_name(rng)
-        if files and rng.random() < 0.4:
-            ct = rng.choice(CTYPES) if rng.random() < 0.8 else None
+        if files and rng.random() < (0.4 if not heavy else 0.85):
+            ct = rng.choice(CTYPES) if rng.random() < (0.8 if not heavy else 0.5) else None
             parts.append(fe.Part(name, gen_value(rng), filename=gen_name(rng, 0.2), ctype=ct))
+        elif files and rng.random() < 0.12:
+            # a plain field may carry a Content-Type of its own (RFC 7578 section 4.4); it stays a field
+            parts.append(fe.Part(name, gen_value(rng), ctype=rng.choice(CTYPES)))
         else:
             parts.append(fe.Part(name, gen_value(rng)))
     return parts
@@ -361,6 +370,12 @@ def directed_cases():
             else:
                 part = fe.Part("upload field" if nf != "token" else "upload", b"v", filename=long, ctype="text/plain")
             yield mp([part], [(nf, ff)], hseed=k)
+    # typed and untyped uploads (and a typed plain field) in one form, every order
+    up = lambda n, ct: fe.Part(n, b"\x00\x01" + n.encode(), filename=n + ".bin", ctype=ct)      # noqa: E731
+    yield mp([up("a", "image/png"), up("b", None)])
+    yield mp([up("b", None), up("a", "image/png")])
+    yield mp([up("a", "image/png"), fe.Part("note", b"plain"), up("a", None), up("c", "text/plain; charset=utf-8"), up("d", None)])
+    yield mp([fe.Part("note", b"plain", ctype="text/plain; charset=utf-8"), up("b", None), up("b", "a/b"), up("b", None)])
     yield mp([fe.Part("a", b"v")], preamble=b"preamble\r\n")
     yield mp([fe.Part("a", b"v")], preamble=b"\r\n")
     base = mp([fe.Part("a", b"1"), fe.Part("b", b"2")])
@@ -426,6 +441,62 @@ def files_equal(got, want):
     return True
 
 
+def solo_ctype(t, boundary):
+    """content_type the real parser reports for upload part `t` when it is the only part of a form (None unless the
+    part alone parses to exactly one file)."""
+    name, filename, ctype, value, hb, nform, fform = t
+    bb = boundary.encode()
+    body = b"--" + bb + b"\r\n" + hb + b"\r\n\r\n" + value + b"\r\n--" + bb + b"--\r\n"
+    outcome, args, files, exc = call({"ct": 'multipart/form-data; boundary="%s"' % boundary, "body": body})
+    if outcome != "ok" or args or len(files) != 1:
+        return None
+    (fl,) = files.values()
+    return fl[0]["content_type"] if len(fl) == 1 else None
+
+
+def judge_untyped_uploads(case, gf, ctx):
+    """An upload that declares no Content-Type: the statement does not say which content_type the parser reports for
+    it (tornado documents none), but 'recovers exactly those files' means each file is recovered from its own
+    part -- what is reported for this upload must not change with the other fields and files of the form.  It is
+    compared with what the same parser reports for the same part alone."""
+    parts = case["parts"]
+    if len(parts) < 2:
+        return True
+    ok = True
+    seen = {}
+    for i, t in enumerate(parts):
+        name, filename, ctype = t[0], t[1], t[2]
+        if filename is None:
+            continue
+        j = seen.get(name, 0)
+        seen[name] = j + 1
+        if ctype is not None:
+            continue
+        ctx.count("untyped_upload_in_multipart_form_evals")
+        earlier = [u[2] for u in parts[:i] if u[2] is not None]
+        later = [u[2] for u in parts[i + 1:] if u[2] is not None]
+        if earlier:
+            ctx.count("untyped_upload_after_typed_part")
+        if later:
+            ctx.count("untyped_upload_before_typed_part")
+        got = gf[name][j][1]
+        alone = solo_ctype(t, case["boundary"])
+        if alone is None:
+            ctx.count("untyped_upload_alone_not_one_file")
+            continue
+        ctx.count("oracle_evals")
+        if got != alone:
+            src = "an-earlier-part" if got in earlier else "a-later-part" if got in later else "elsewhere"
+            ok = False
+            ctx.violation(f"lossless/mp/untyped-upload-content-type-from-{src}",
+                          "multipart/form-data: the content_type reported for an upload that declares none depends on "
+                          "the other parts of the form",
+                          {"part_index": i, "header_block": t[4], "content_type_in_form": got, "content_type_alone": alone,
+                           "types_declared_earlier": earlier, "types_declared_later": later,
+                           "full_ct": case["ct"], "full_body": case["body"]})
+    return ok
+
+
 def diagnose_part(t, boundary):
     """Re-parse one part alone (same header block) and classify how it is mis-read.
     Returns None if the part alone is read correctly, else (mechanism-suffix, what, witness)."""
@@ -467,7 +538,7 @@ def judge_lossless_mp(case, args, files, ctx):
     ga, gf = norm_result(args, files)
     ctx.count("oracle_evals")
     if ga == want_args and files_equal(gf, want_files):
-        return True
+        return judge_untyped_uploads(case, gf, ctx)
     # attribute the loss to individual parts so that the mechanism names one root cause
     found = False
     for t in case["parts"]:
@@ -539,6 +610,8 @@ def run_case(case, ctx):
             if t[1] is not None:
                 ctx.count("mp_files")
                 ctx.count("mp_fnform_" + t[6])
+            elif t[2] is not None:
+                ctx.count("mp_field_with_content_type")
         nt = nontrivial_form(case)
         ctx.mark(key, nt)
         if nt:
